@@ -20,21 +20,27 @@ pub struct EpCfg {
     pub keepalive: bool,
     pub keepalive_interval_ms: u32,
     pub active_timeout_ms: u32,
+    /// bits 32.. of max_receive_alloc and of both rates (the configuration fields are `usize`; what is advertised to
+    /// the peer is documented to saturate at 2^32 - 1)
+    #[serde(default)]
+    pub alloc_high: u8,
+    #[serde(default)]
+    pub rate_high: u8,
 }
 
 impl Default for EpCfg {
     fn default() -> Self {
-        EpCfg { max_send_rate: 2_000_000, max_receive_rate: 2_000_000, max_packet_size: 1_000_000, max_receive_alloc: 1_000_000, keepalive: true, keepalive_interval_ms: 5000, active_timeout_ms: 20000 }
+        EpCfg { max_send_rate: 2_000_000, max_receive_rate: 2_000_000, max_packet_size: 1_000_000, max_receive_alloc: 1_000_000, keepalive: true, keepalive_interval_ms: 5000, active_timeout_ms: 20000, alloc_high: 0, rate_high: 0 }
     }
 }
 
 impl EpCfg {
     pub fn to_endpoint(&self) -> uflow::EndpointConfig {
         uflow::EndpointConfig {
-            max_send_rate: self.max_send_rate.max(1) as usize,
-            max_receive_rate: self.max_receive_rate.max(1) as usize,
+            max_send_rate: ((self.rate_high as usize) << 32) | self.max_send_rate.max(1) as usize,
+            max_receive_rate: ((self.rate_high as usize) << 32) | self.max_receive_rate.max(1) as usize,
             max_packet_size: (self.max_packet_size.max(1) as usize).min(uflow::MAX_PACKET_SIZE),
-            max_receive_alloc: self.max_receive_alloc.max(1) as usize,
+            max_receive_alloc: ((self.alloc_high as usize) << 32) | self.max_receive_alloc.max(1) as usize,
             keepalive: self.keepalive,
             keepalive_interval_ms: self.keepalive_interval_ms as u64,
             active_timeout_ms: self.active_timeout_ms as u64,
